@@ -234,30 +234,68 @@ def Just (env : Env) (u d : String) : Prop :=
 def NeverOk (env : Env) (p : Plugin) (t : String) : Prop :=
   isTemp t = false → ∃ b, shouldSaveFor env p t = .ok b
 
+/-- none of the `_target_should_be_saved` calls made while scanning the computed type `t` raises: the one for
+`t` itself and, when the saver loop is reached, the ones for the not stored outputs of its plugin -/
+def SaveOk (env : Env) (p : Plugin) (t : String) : Prop :=
+  isTemp t = true ∨ ∃ b, shouldSaveFor env p t = .ok b ∧
+    ((b = false ∧ p.multiOutput = false) ∨ env.partialReq = true ∨
+      ∀ d ∈ p.provides, loadable env d = false → ∃ b', shouldSaveFor env p d = .ok b')
+
+theorem SaveOk.neverOk {env : Env} {p t} (h : SaveOk env p t) : NeverOk env p t := by
+  intro ht
+  rcases h with h | ⟨b, hb, _⟩
+  · rw [ht] at h; cases h
+  · exact ⟨b, hb⟩
+
+theorem saverLoop_calls {env : Env} {p : Plugin} : ∀ (ds : List String) (sv sv' : Savers),
+    saverLoop env p ds sv = .ok sv' → ∀ d ∈ ds, loadable env d = false → ∃ b, shouldSaveFor env p d = .ok b
+  | [], _, _, _, d, hd, _ => by simp at hd
+  | x :: ds, sv, sv', h, d, hd, hl => by
+    unfold saverLoop at h
+    simp only [List.mem_cons] at hd
+    split at h
+    · rename_i hx
+      rcases hd with rfl | hd
+      · rw [hl] at hx; cases hx
+      · exact saverLoop_calls ds sv sv' h d hd hl
+    · split at h
+      · cases h
+      · rename_i should hsh
+        split at h
+        · split at h
+          · rcases hd with rfl | hd
+            · exact ⟨should, hsh⟩
+            · exact saverLoop_calls ds sv sv' h d hd hl
+          · cases h
+        · rcases hd with rfl | hd
+          · exact ⟨should, hsh⟩
+          · exact saverLoop_calls ds _ sv' h d hd hl
+
 theorem saverStep_ok {env : Env} {p t st st'} (hp : pluginFor env.g t = some p)
     (h : saverStep env p t st = .ok st') :
     (env.partialReq = false → ∀ d, d ∈ st'.savers.map (·.1) ↔ d ∈ st.savers.map (·.1) ∨ Just env t d) ∧
     (env.partialReq = true → st'.savers = st.savers) ∧
     (SaversWF env st.savers → SaversWF env st'.savers) ∧
-    NeverOk env p t := by
+    SaveOk env p t ∧
+    (∀ d ∈ st'.savers.map (·.1), d ∈ st.savers.map (·.1) ∨ d ∈ p.provides) := by
   have htp := pluginFor_provides hp
   unfold saverStep at h
   split at h
   · rename_i htemp
     cases h
-    refine ⟨fun _ d => ?_, fun _ => rfl, id, fun hc => by simp [htemp] at hc⟩
+    refine ⟨fun _ d => ?_, fun _ => rfl, id, .inl htemp, fun d hd => .inl hd⟩
     simp [Just, htemp]
   · rename_i htemp
     have htemp' : isTemp t = false := by simpa using htemp
     split at h
     · cases h
     · rename_i should hsh
-      have hn : NeverOk env p t := fun _ => ⟨should, hsh⟩
       split at h
       · rename_i hret
         cases h
         simp only [Bool.and_eq_true, Bool.not_eq_eq_eq_not, Bool.not_true] at hret
-        refine ⟨fun _ d => ?_, fun _ => rfl, id, hn⟩
+        refine ⟨fun _ d => ?_, fun _ => rfl, id,
+          .inr ⟨should, hsh, .inl ⟨by simpa using hret.1, by simpa using hret.2⟩⟩, fun d hd => .inl hd⟩
         constructor
         · exact .inl
         · rintro (h | ⟨_, p', hp', hd, hs⟩)
@@ -269,14 +307,20 @@ theorem saverStep_ok {env : Env} {p t st st'} (hp : pluginFor env.g t = some p)
       · split at h
         · rename_i hpart
           cases h
-          exact ⟨fun hc => by simp [hpart] at hc, fun _ => rfl, id, hn⟩
+          exact ⟨fun hc => by simp [hpart] at hc, fun _ => rfl, id, .inr ⟨should, hsh, .inr (.inl hpart)⟩,
+            fun d hd => .inl hd⟩
         · rename_i hpart
           split at h
           · cases h
           · rename_i sv hloop
             cases h
             obtain ⟨h1, h2⟩ := saverLoop_ok _ _ _ hloop
-            refine ⟨fun _ d => ?_, fun hc => by simp [hc] at hpart, h2, hn⟩
+            refine ⟨fun _ d => ?_, fun hc => by simp [hc] at hpart, h2,
+              .inr ⟨should, hsh, .inr (.inr (saverLoop_calls _ _ _ hloop))⟩, fun d hd => ?_⟩
+            rotate_left
+            · rcases (h1 d).1 hd with h | ⟨h, _⟩
+              · exact .inl h
+              · exact .inr h
             simp only
             rw [h1 d]
             constructor
@@ -297,7 +341,7 @@ def ClosedAt (env : Env) (seen : List String) (u : String) : Prop :=
 def Good (env : Env) (u : String) : Prop :=
   ∃ p pol, pluginFor env.g u = some p ∧ p.policy u = some pol ∧
     starForbids env u = false ∧ env.opts.forbid.contains u = false ∧
-    ¬ (env.mods.timeRange = true ∧ pol.toNat > SaveWhen.explicit.toNat) ∧ NeverOk env p u
+    ¬ (env.mods.timeRange = true ∧ pol.toNat > SaveWhen.explicit.toNat) ∧ SaveOk env p u
 
 structure Step (env : Env) (s s' : St) : Prop where
   seen_mono : ∀ u ∈ s.seen, u ∈ s'.seen
@@ -382,7 +426,7 @@ theorem checkCache_step {env : Env} : ∀ (fuel : Nat) (t : String) (st st' : St
     · have hnl := not_loadable_of_loaderFor hl
       obtain ⟨hstep, hdeps⟩ := foldDeps_step (fun d _ s s' hd => checkCache_step fuel d s s' hd) hf
       obtain ⟨hfs, hfl, hfc⟩ := saverStep_frame hsv
-      obtain ⟨hsav, hsavp, _, hnev⟩ := saverStep_ok hp hsv
+      obtain ⟨hsav, hsavp, _, hnev, _⟩ := saverStep_ok hp hsv
       have hgood : Good env t := ⟨p, pol, hp, hpol, hg2, hg3, hg1, hnev⟩
       have ht3 : t ∈ st3.seen := hstep.seen_mono t (by simp)
       refine ⟨⟨fun u hu => ?_, ?_, ?_, fun hpart d => ?_, fun hpart => ?_⟩, by rw [hfs]; exact ht3⟩
@@ -424,9 +468,10 @@ structure Inv (env : Env) (s : St) : Prop where
   comp_nodup : s.compute.Nodup
   load_nodup : (s.loaders.map (·.1)).Nodup
   sav : SaversWF env s.savers
+  sav_seen : ∀ d ∈ s.savers.map (·.1), ∃ u ∈ s.seen, ∃ p, pluginFor env.g u = some p ∧ d ∈ p.provides
 
 theorem Inv.init (env : Env) : Inv env {} :=
-  ⟨by simp, by simp, by simp, by simp, by simp, ⟨by simp, by simp⟩⟩
+  ⟨by simp, by simp, by simp, by simp, by simp, ⟨by simp, by simp⟩, by simp⟩
 
 theorem checkCache_inv {env : Env} : ∀ (fuel : Nat) (t : String) (st st' : St),
     checkCache env fuel t st = .ok st' → Reach env t → Inv env st → Inv env st'
@@ -436,7 +481,10 @@ theorem checkCache_inv {env : Env} : ∀ (fuel : Nat) (t : String) (st st' : St)
     · exact hi
     · have hld := loadable_of_loaderFor hl
       have htc : t ∉ st.compute := fun hc => hns ((hi.comp t).1 hc).1
-      refine ⟨?_, fun u => ?_, fun u j => ?_, hi.comp_nodup, ?_, hi.sav⟩
+      refine ⟨?_, fun u => ?_, fun u j => ?_, hi.comp_nodup, ?_, hi.sav, fun d hd => ?_⟩
+      rotate_right
+      · obtain ⟨u, hu, hrest⟩ := hi.sav_seen d hd
+        exact ⟨u, by simp [hu], hrest⟩
       · intro u hu
         simp only [List.mem_cons] at hu
         rcases hu with rfl | hu
@@ -471,7 +519,10 @@ theorem checkCache_inv {env : Env} : ∀ (fuel : Nat) (t : String) (st st' : St)
     · have hnl := not_loadable_of_loaderFor hl
       have htc : t ∉ st.compute := fun hc => hns ((hi.comp t).1 hc).1
       have hi2 : Inv env { st with seen := t :: st.seen, compute := st.compute ++ [t] } := by
-        refine ⟨?_, fun u => ?_, fun u j => ?_, ?_, hi.load_nodup, hi.sav⟩
+        refine ⟨?_, fun u => ?_, fun u j => ?_, ?_, hi.load_nodup, hi.sav, fun d hd => ?_⟩
+        rotate_right
+        · obtain ⟨u, hu, hrest⟩ := hi.sav_seen d hd
+          exact ⟨u, by simp [hu], hrest⟩
         · intro u hu
           simp only [List.mem_cons] at hu
           rcases hu with rfl | hu
@@ -505,9 +556,15 @@ theorem checkCache_inv {env : Env} : ∀ (fuel : Nat) (t : String) (st st' : St)
           p.dependsOn _ _
           (fun d hd s s' hc => checkCache_inv fuel d s s' hc (Reach.dep hr hnl hp hd)) hf hi2
       obtain ⟨hfs, hfl, hfc⟩ := saverStep_frame hsv
-      obtain ⟨_, _, hwf, _⟩ := saverStep_ok hp hsv
-      exact ⟨by rw [hfs]; exact hi3.reach, by rw [hfs, hfc]; exact hi3.comp, by rw [hfs, hfl]; exact hi3.load,
-        by rw [hfc]; exact hi3.comp_nodup, by rw [hfl]; exact hi3.load_nodup, hwf hi3.sav⟩
+      obtain ⟨_, _, hwf, _, hkeys⟩ := saverStep_ok hp hsv
+      have ht3 : t ∈ st3.seen :=
+        (foldDeps_step (fun d _ s s' hd => checkCache_step fuel d s s' hd) hf).1.seen_mono t (by simp)
+      refine ⟨by rw [hfs]; exact hi3.reach, by rw [hfs, hfc]; exact hi3.comp, by rw [hfs, hfl]; exact hi3.load,
+        by rw [hfc]; exact hi3.comp_nodup, by rw [hfl]; exact hi3.load_nodup, hwf hi3.sav, fun d hd => ?_⟩
+      rw [hfs]
+      rcases hkeys d hd with h | h
+      · exact hi3.sav_seen d h
+      · exact ⟨t, ht3, p, hp, h⟩
 
 /-! ### the whole function -/
 
@@ -747,5 +804,311 @@ theorem getComponents_no_rt {env : Env} (htopo : topoOrdered env.g = true) :
           foldDeps_rel (R := fun s s' => Inv env s → Inv env s') (fun _ h => h) (fun _ _ _ h1 h2 h => h2 (h1 h))
             env.targets _ _ (fun d hd s s' hc => checkCache_inv _ d s s' hc (Reach.target hd)) hst (Inv.init env)
         exact finish_no_rt hinv h
+
+/-! ### totality: when the traversal succeeds -/
+
+theorem policy_of_provides {p : Plugin} {t : String} (h : t ∈ p.provides) : ∃ pol, p.policy t = some pol := by
+  unfold Plugin.provides at h
+  unfold Plugin.policy
+  simp only [List.mem_map] at h
+  obtain ⟨o, ho, rfl⟩ := h
+  cases hf : p.outputs.find? (fun o' => o'.1 == o.1) with
+  | none =>
+    have := List.find?_eq_none.1 hf o ho
+    simp at this
+  | some x => exact ⟨x.2, rfl⟩
+
+/-- with unique providers, the plugin registered for any output of the plugin registered for `u` is that plugin -/
+theorem uniq_provider : ∀ (g : Graph), (allTypes g).Nodup → ∀ {u t : String} {p' : Plugin},
+    pluginFor g u = some p' → t ∈ p'.provides → pluginFor g t = some p'
+  | [], _, u, t, p', h, _ => by simp [pluginFor] at h
+  | q :: rest, hnd, u, t, p', h, ht => by
+    unfold allTypes at hnd
+    simp only [List.flatMap_cons] at hnd
+    rw [List.nodup_append] at hnd
+    obtain ⟨_, hrest, hdisj⟩ := hnd
+    unfold pluginFor at h ⊢
+    rw [List.find?_cons] at h ⊢
+    cases hqu : q.provides.contains u with
+    | true =>
+      rw [hqu] at h
+      cases h
+      have : q.provides.contains t = true := by simpa using ht
+      rw [this]
+    | false =>
+      rw [hqu] at h
+      have hmem : p' ∈ rest := List.mem_of_find?_eq_some h
+      cases hqt : q.provides.contains t with
+      | true =>
+        exfalso
+        have h1 : t ∈ q.provides := by simpa using hqt
+        have h2 : t ∈ rest.flatMap (·.provides) := List.mem_flatMap.2 ⟨p', hmem, ht⟩
+        exact hdisj t h1 t h2 rfl
+      | false =>
+        have := uniq_provider rest hrest (u := u) (t := t) (p' := p') (by unfold pluginFor; exact h) ht
+        unfold pluginFor at this
+        exact this
+
+/-- `_get_plugins` finds a provider for `t` and for everything below it -/
+def Res (g : Graph) (t : String) : Prop := ∃ fuel, resolve g fuel t = .ok ()
+
+theorem resolveAll_ok_mem {f : String → Except Err Unit} : ∀ (ds : List String), resolveAll f ds = .ok () →
+    ∀ d ∈ ds, f d = .ok ()
+  | [], _, d, hd => by simp at hd
+  | x :: ds, h, d, hd => by
+    unfold resolveAll at h
+    split at h
+    · cases h
+    · rename_i hx
+      simp only [List.mem_cons] at hd
+      rcases hd with rfl | hd
+      · exact hx
+      · exact resolveAll_ok_mem ds h d hd
+
+theorem res_plugin {g : Graph} {t : String} (h : Res g t) : ∃ p, pluginFor g t = some p := by
+  obtain ⟨fuel, hf⟩ := h
+  cases fuel with
+  | zero => simp [resolve] at hf
+  | succ n =>
+    unfold resolve at hf
+    split at hf
+    · cases hf
+    · rename_i p hp; exact ⟨p, hp⟩
+
+theorem res_dep {g : Graph} {t d : String} {p : Plugin} (h : Res g t) (hp : pluginFor g t = some p)
+    (hd : d ∈ p.dependsOn) : Res g d := by
+  obtain ⟨fuel, hf⟩ := h
+  cases fuel with
+  | zero => simp [resolve] at hf
+  | succ n =>
+    unfold resolve at hf
+    rw [hp] at hf
+    exact ⟨n, resolveAll_ok_mem _ hf d hd⟩
+
+theorem reach_res {env : Env} {fuel : Nat} (hres : resolveAll (resolve env.g fuel) env.targets = .ok ()) {t : String}
+    (hr : Reach env t) : Res env.g t := by
+  induction hr with
+  | target ht => exact ⟨fuel, resolveAll_ok_mem _ hres _ ht⟩
+  | dep _ _ hp hd ih => exact res_dep ih hp hd
+
+theorem foldDeps_total {f : String → St → Except Err St} {P : St → Prop} : ∀ (ds : List String) (st : St), P st →
+    (∀ d ∈ ds, ∀ s, P s → ∃ s', f d s = .ok s' ∧ P s') → ∃ st', foldDeps f ds st = .ok st' ∧ P st'
+  | [], st, hP, _ => ⟨st, rfl, hP⟩
+  | d :: ds, st, hP, hstep => by
+    obtain ⟨s1, h1, hP1⟩ := hstep d (by simp) st hP
+    obtain ⟨st', h2, hP2⟩ := foldDeps_total ds s1 hP1 (fun d' hd' => hstep d' (by simp [hd']))
+    exact ⟨st', by unfold foldDeps; rw [h1]; exact h2, hP2⟩
+
+theorem saverLoop_total_multi {env : Env} {p : Plugin} (hm : p.multiOutput = true) : ∀ (ds : List String) (sv : Savers),
+    (∀ d ∈ ds, loadable env d = false → ∃ b, shouldSaveFor env p d = .ok b) → ∃ sv', saverLoop env p ds sv = .ok sv'
+  | [], sv, _ => ⟨sv, rfl⟩
+  | d :: ds, sv, h => by
+    have ih := fun sv => saverLoop_total_multi hm ds sv (fun d' hd' => h d' (by simp [hd']))
+    unfold saverLoop
+    split
+    · exact ih sv
+    · rename_i hl
+      obtain ⟨b, hb⟩ := h d (by simp) (by simpa using hl)
+      rw [hb]
+      dsimp only
+      split
+      · exact ih sv
+      · exact ih _
+
+theorem saverStep_total {env : Env} {p : Plugin} {t : String} {st : St} (ht : t ∈ p.provides) (hok : SaveOk env p t)
+    (hsingle : p.multiOutput = false → env.partialReq = false → hasSaver st.savers t = false) :
+    ∃ st', saverStep env p t st = .ok st' := by
+  unfold saverStep
+  split
+  · exact ⟨st, rfl⟩
+  · rename_i htemp
+    rcases hok with h | ⟨b, hb, hrest⟩
+    · exact absurd h htemp
+    · rw [hb]
+      dsimp only
+      split
+      · exact ⟨st, rfl⟩
+      · rename_i hcont
+        split
+        · exact ⟨st, rfl⟩
+        · rename_i hpart
+          have hpart' : env.partialReq = false := by simpa using hpart
+          rcases hrest with ⟨hb0, hm0⟩ | hp1 | hall
+          · simp [hb0, hm0] at hcont
+          · rw [hp1] at hpart'; cases hpart'
+          · cases hm : p.multiOutput with
+            | true =>
+              obtain ⟨sv', hsv⟩ := saverLoop_total_multi hm p.provides st.savers hall
+              rw [hsv]; exact ⟨_, rfl⟩
+            | false =>
+              -- single output: provides = [t], the call for t said "save", and t has no saver yet
+              have hb1 : b = true := by
+                cases b with
+                | true => rfl
+                | false => simp [hm] at hcont
+              subst hb1
+              have hlen : p.provides.length ≤ 1 := by
+                unfold Plugin.multiOutput at hm; simpa using hm
+              have hprov : p.provides = [t] := by
+                match hp : p.provides, ht, hlen with
+                | [x], ht, _ => simp at ht; rw [ht]
+                | _ :: _ :: _, _, hl => simp at hl
+              have hloop : ∃ sv, saverLoop env p [t] st.savers = .ok sv := by
+                unfold saverLoop
+                split
+                · exact ⟨st.savers, by simp only [saverLoop]⟩
+                · rw [hb]
+                  simp only [hsingle hm hpart', Bool.not_true, Bool.or_self, Bool.false_eq_true, if_false, saverLoop]
+                  exact ⟨_, rfl⟩
+              obtain ⟨sv, hsv⟩ := hloop
+              rw [hprov, hsv]
+              exact ⟨_, rfl⟩
+
+theorem finish_err {env : Env} {st : St} {e : Err} (h : finish env st = .error e) : e = .runtimeError := by
+  unfold finish at h
+  split at h
+  · cases h; rfl
+  · cases h
+
+/-- Progress: on a topologically ordered graph with unique providers, a needed type whose whole dependency
+closure is registered is scanned successfully whenever every needed, not loadable type passes the creation and
+saving checks (`Good`). -/
+theorem checkCache_total {env : Env} (htopo : topoOrdered env.g = true) (huniq : (allTypes env.g).Nodup)
+    (hgood : ∀ u, Reach env u → loadable env u = false → Good env u) : ∀ (fuel : Nat) (t : String) (st : St),
+    rank env.g t < fuel → Reach env t → Res env.g t → Inv env st →
+    ∃ st', checkCache env fuel t st = .ok st' ∧ Inv env st'
+  | 0, _, _, h0, _, _, _ => by omega
+  | fuel + 1, t, st, hrk, hr, hres, hi => by
+    cases hcc : checkCache env (fuel + 1) t st with
+    | ok st' => exact ⟨st', rfl, checkCache_inv _ _ _ _ hcc hr hi⟩
+    | error e =>
+      exfalso
+      obtain ⟨p0, hp0⟩ := res_plugin hres
+      unfold checkCache at hcc
+      split at hcc
+      · cases hcc
+      · rename_i hseen
+        have hns : t ∉ st.seen := by simpa using hseen
+        split at hcc
+        · rename_i hnone; rw [hp0] at hnone; cases hnone
+        · rename_i p hp
+          split at hcc
+          · cases hcc
+          · rename_i hl
+            have hnl := not_loadable_of_loaderFor hl
+            obtain ⟨p', pol', hp', hpol', hg2, hg3, hg1, hsave⟩ := hgood t hr hnl
+            rw [hp] at hp'; cases hp'
+            split at hcc
+            · rename_i hpn; rw [hpol'] at hpn; cases hpn
+            · rename_i pol hpol
+              rw [hpol'] at hpol; cases hpol
+              split at hcc
+              · rename_i hc; simp only [Bool.and_eq_true, decide_eq_true_eq] at hc; exact hg1 hc
+              · split at hcc
+                · rename_i hc; rw [hg2] at hc; cases hc
+                · split at hcc
+                  · rename_i hc; rw [hg3] at hc; cases hc
+                  · dsimp only at hcc
+                    -- the state handed to the recursion satisfies the invariant
+                    have htc : t ∉ st.compute := fun hc => hns ((hi.comp t).1 hc).1
+                    have hi2 : Inv env { st with seen := t :: st.seen, compute := st.compute ++ [t] } := by
+                      refine ⟨?_, fun u => ?_, fun u j => ?_, ?_, hi.load_nodup, hi.sav, fun d hd => ?_⟩
+                      · intro u hu
+                        simp only [List.mem_cons] at hu
+                        rcases hu with rfl | hu
+                        · exact hr
+                        · exact hi.reach u hu
+                      · simp only [List.mem_append, List.mem_cons, List.not_mem_nil, or_false]
+                        rw [hi.comp u]
+                        constructor
+                        · rintro (⟨h1, h2⟩ | rfl)
+                          · exact ⟨.inr h1, h2⟩
+                          · exact ⟨.inl rfl, hnl⟩
+                        · rintro ⟨rfl | h1, h2⟩
+                          · exact .inr rfl
+                          · exact .inl ⟨h1, h2⟩
+                      · simp only [List.mem_cons]
+                        rw [hi.load u j]
+                        constructor
+                        · rintro ⟨h1, h2⟩; exact ⟨.inr h1, h2⟩
+                        · rintro ⟨rfl | h1, h2⟩
+                          · rw [hl] at h2; cases h2
+                          · exact ⟨h1, h2⟩
+                      · rw [List.nodup_append]
+                        refine ⟨hi.comp_nodup, by simp, ?_⟩
+                        intro a ha b hb
+                        simp only [List.mem_singleton] at hb
+                        rintro rfl
+                        subst hb
+                        exact htc ha
+                      · obtain ⟨u, hu, hrest⟩ := hi.sav_seen d hd
+                        exact ⟨u, by simp [hu], hrest⟩
+                    obtain ⟨st3, hf, hi3⟩ := foldDeps_total (P := Inv env) p.dependsOn _ hi2 (fun d hd s hs =>
+                      checkCache_total htopo huniq hgood fuel d s (by have := topo_rank htopo hp hd; omega)
+                        (Reach.dep hr hnl hp hd) (res_dep hres hp hd) hs)
+                    rw [hf] at hcc
+                    dsimp only at hcc
+                    obtain ⟨hstep, _⟩ := foldDeps_step (fun d _ s s' hd => checkCache_step fuel d s s' hd) hf
+                    have htp := pluginFor_provides hp
+                    obtain ⟨st', hst'⟩ := saverStep_total (st := st3) htp hsave (by
+                      intro hm hpart
+                      cases hhas : hasSaver st3.savers t with
+                      | false => rfl
+                      | true =>
+                        exfalso
+                        have hk := (hasSaver_iff _ _).1 hhas
+                        rcases (hstep.savers hpart t).1 hk with hold | ⟨u, hu, hnu, _, _, p', hp', hd', _⟩
+                        · obtain ⟨u, hu, p', hp', hd'⟩ := hi.sav_seen t hold
+                          have h1 := uniq_provider env.g huniq hp' hd'
+                          rw [hp] at h1; cases h1
+                          have := single_output_eq hm htp (pluginFor_provides hp')
+                          subst this
+                          exact hns hu
+                        · have h1 := uniq_provider env.g huniq hp' hd'
+                          rw [hp] at h1; cases h1
+                          have := single_output_eq hm htp (pluginFor_provides hp')
+                          subst this
+                          exact hnu (by simp))
+                    rw [hst'] at hcc
+                    cases hcc
+
+/-- exact characterisation of success (hypotheses: topological order, unique providers) -/
+theorem getComponents_total {env : Env} (htopo : topoOrdered env.g = true) (huniq : (allTypes env.g).Nodup)
+    (hlen : env.targets.any (fun t => t.length == 1) = false)
+    (hres : resolveAll (resolve env.g (fuelFor env.g)) env.targets = .ok ())
+    (hgood : ∀ u, Reach env u → loadable env u = false → Good env u) : ∃ c, getComponents env = .ok c := by
+  have hfuel : ∀ t, Res env.g t → rank env.g t < fuelFor env.g := fun t ht => by
+    obtain ⟨p, hp⟩ := res_plugin ht
+    have := rank_lt_length hp; unfold fuelFor; omega
+  obtain ⟨st, hst, hinv⟩ := foldDeps_total (P := Inv env) env.targets {} (Inv.init env) (fun d hd s hs =>
+    checkCache_total htopo huniq hgood _ d s (hfuel d (reach_res hres (Reach.target hd))) (Reach.target hd)
+      (reach_res hres (Reach.target hd)) hs)
+  unfold getComponents
+  rw [hlen, hres, hst]
+  simp only [Bool.false_eq_true, if_false]
+  cases hfin : finish env st with
+  | ok c => exact ⟨c, rfl⟩
+  | error e =>
+    have := finish_err hfin
+    subst this
+    exact absurd hfin (finish_no_rt hinv)
+
+/-- the converse: a successful call passed all those checks -/
+theorem getComponents_ok_conditions {env : Env} {c : Components} (h : getComponents env = .ok c) :
+    env.targets.any (fun t => t.length == 1) = false ∧
+    resolveAll (resolve env.g (fuelFor env.g)) env.targets = .ok () ∧
+    ∀ u, Reach env u → loadable env u = false → Good env u := by
+  obtain ⟨st, _, _, _, _, hstep, hseen⟩ := getComponents_spec h
+  refine ⟨?_, ?_, fun u hr hl => hstep.good u ((hseen u).2 hr) (by simp) hl⟩
+  · unfold getComponents at h
+    split at h
+    · cases h
+    · rename_i hc; simpa using hc
+  · unfold getComponents at h
+    split at h
+    · cases h
+    · split at h
+      · cases h
+      · rename_i hr; exact hr
 
 end Strax.Components
